@@ -129,6 +129,10 @@ structure Scn where
   nContacts : Nat
   obsTime : Nat
   obsErr : Bool
+  /-- the groups named in the error text (`completenessError`) -/
+  obsFailed : List Grp
+  /-- `false`: the call's return is not observed (the discarded `GetSCTs` call on pending logs) -/
+  checkRet : Bool
   obsScts : List Log
 
 structure Sim where
@@ -199,7 +203,10 @@ def firingAt (sc : Scn) (sim : Sim) (now : Nat) : List Grp :=
 def final (sc : Scn) (sim : Sim) : Bool :=
   match sim.st.ret, sim.retAt with
   | some (ls, e), some t =>
-    t == sc.obsTime && e == sc.obsErr && sortNat ls == sc.obsScts && sim.contacts == sc.nContacts
+    if sc.checkRet then
+      let failed := sortNat ((dedup (names sc.run.cfg)).filter fun g => sim.st.recvd g != some true)
+      t == sc.obsTime && e == sc.obsErr && sortNat ls == sc.obsScts && sim.contacts == sc.nContacts && failed == sc.obsFailed
+    else sim.contacts == sc.nContacts
   | _, _ => false
 
 /-- wake the goroutines of `now` one after the other: each takes the next log of its group's session (unknown: any
@@ -353,17 +360,18 @@ def parseLogs : Nat → List String → Option (List (Log × Nat × Nat × Optio
   | _, _ => none
 
 /-- the part of a `race` / `dist` line after the groups: `L n (log lat outcome contact|-)* D d R t err n scts…` -/
-def raceTail (gs : List (Group × List Log)) (ts : List String) : String :=
+def raceTail (gs : List (Group × List Log)) (ts : List String) (checkRet : Bool := true)
+    (keep : Log → Bool := fun _ => true) : String :=
   match ts with
   | "L" :: nl :: rest =>
     match parseNat? nl with
     | none => "bad-op"
     | some nl =>
-      match parseLogs nl rest with
-      | some (ls, "D" :: d :: "R" :: rt :: re :: ns :: rest) =>
-        match parseNat? d, parseNat? rt, parseBool? re, parseNat? ns with
-        | some d, some rt, some re, some ns =>
-          match takeNats ns rest with
+      match (parseLogs nl rest).map (fun p => (p.1.filter (fun e => keep e.1), p.2)) with
+      | some (ls, "D" :: d :: "R" :: rt :: re :: nf :: rest0) =>
+        match parseNat? d, parseNat? rt, parseBool? re, (parseNat? nf).bind (fun nf => takeNats nf rest0) with
+        | some d, some rt, some re, some (failed, ns :: rest) =>
+          match (parseNat? ns).bind (fun ns => takeNats ns rest) with
           | some (scts, _) =>
             let cfg : Cfg := gs.map (·.1)
             let sess : Grp → List Log := fun g => match gs.find? (fun p => p.1.name == g) with
@@ -380,7 +388,7 @@ def raceTail (gs : List (Group × List Log)) (ts : List String) : String :=
                 | some p => p.2.2.2
                 | none => none,
               nContacts := (ls.filter fun p => p.2.2.2.isSome).length,
-              obsTime := rt, obsErr := re, obsScts := sortNat scts }
+              obsTime := rt, obsErr := re, obsFailed := sortNat failed, checkRet := checkRet, obsScts := sortNat scts }
             let sim0 : Sim := { st := St.init sc.run, remaining := sess, fired := fun _ => 0, inflight := [], retAt := none, contacts := 0 }
             -- groups with an empty session return at once; with no group at all GetSCTs returns at once
             let start : Option Sim :=
@@ -439,37 +447,39 @@ def parseDLogs : Nat → List String → Option (List DLog × List String)
 
 def handleDist (ts : List String) : String :=
   match ts with
-  | pol :: dis :: "PRE" :: isPre :: asPre :: "D6" :: rest =>
-    match parseBool? dis, parseBool? isPre, parseBool? asPre, parseInts 6 rest with
-    | some dis, some isPre, some asPre, some ([sy, sm, sd, ey, em, ed], "NA" :: na :: "ROOT" :: rt :: "N" :: n :: rest) =>
+  | pol :: dis :: "PRE" :: isPre :: asPre :: "PEND" :: pend :: "D6" :: rest =>
+    match parseBool? dis, parseBool? isPre, parseBool? asPre, parseBool? pend, parseInts 6 rest with
+    | some dis, some isPre, some asPre, some pend, some ([sy, sm, sd, ey, em, ed], "NA" :: na :: "ROOT" :: rt :: "N" :: n :: rest) =>
       match parseInt? na, parseNat? rt, parseNat? n with
       | some na, some rt, some n =>
         match parseDLogs n rest with
         | some (dls, rest) =>
           let p : Pol := if pol = "a" then .apple else .chrome
           let clients := dls.filter fun d => d.status == 1 || d.status == 2 || d.status == 3
-          let full := clients.all fun d => d.info.roots.isSome
-          let merged : List Nat := clients.flatMap fun d => d.info.roots.getD []
-          -- Distributor.addSomeChain: which root, if any, the compatibility filter is given
-          let rootSel : Option (Option (Nat × Bool)) :=
-            if dis then some none
-            else if rt ∈ merged then some (some (rt, true))
-            else if full then none
-            else some none
-          match rootSel with
+          match chooseRoot dis rt (clients.map fun d => d.info.roots) with
           | none => "badchain"
           | some root =>
             if isPre != asPre then "typemismatch"
             else
-              let usable := (dls.map (·.info))
-              let cl := compatible na root usable
+              let cl := compatible na root (dls.map (·.info))
               let months := Gen.Policy.lifetimeInMonths sy sm sd ey em ed
               match policyCfg p months cl with
               | none => "nogroups"
-              | some cfg => raceTail (cfg.map fun g => (g, g.logs)) rest
+              | some cfg =>
+                let pls := (dls.filter fun d => d.status == 1 || d.status == 2).map (·.info)
+                let pids := pls.map (·.id)
+                let main := raceTail (cfg.map fun g => (g, g.logs)) rest true (fun l => !(pend && pids.contains l))
+                if !pend then main
+                else if main != "accept" then main
+                else
+                  -- the second, discarded GetSCTs call on the pending / qualified logs
+                  let pc : Cfg := (pendingCfg pls).getD []
+                  match raceTail (pc.map fun g => (g, g.logs)) rest false (fun l => pids.contains l) with
+                  | "accept" => "accept"
+                  | r => "pending-" ++ r
         | none => "bad-op"
       | _, _, _ => "bad-op"
-    | _, _, _, _ => "bad-op"
+    | _, _, _, _, _ => "bad-op"
   | _ => "bad-op"
 
 /-- `pol c|a D6 sy sm sd ey em ed N n (id google)*`: months, then the groups `LogsByGroup` builds, or `err` -/
